@@ -438,6 +438,9 @@ static void check_stream(int dev, const struct stream_cfg* s, const struct acq_r
         // ---- C10 ------------------------------------------------------------------------------------
         long full = nc / s->avg;
         ++C.avg_acqs;
+        if (!prefix_ok && s->N != (uint64_t)-1 && nc != (long)s->N)
+            violation(mk_props(pb, sizeof pb, "C10,C04", 0), "acquired-frame-count", "%s stream %d: a finite acquisition of %llu frames took %ld frames from the camera",
+                      ctx, dev, (unsigned long long)s->N, nc);
         if (!prefix_ok && (ns < full || ns > full + 1))
             violation(mk_props(pb, sizeof pb, "C10,C04", 0), "averaging-frame-count", "%s stream %d: %ld camera frames, window %u: storage got %ld frames, expected %ld (+1 trailing at most)",
                       ctx, dev, nc, s->avg, ns, full);
@@ -467,6 +470,9 @@ static void check_stream(int dev, const struct stream_cfg* s, const struct acq_r
         }
     } else {
         // ---- C04 / C07 prefix ------------------------------------------------------------------------
+        if (!prefix_ok && s->N != (uint64_t)-1 && nc != (long)s->N)
+            violation(mk_props(pb, sizeof pb, "C04", 0), "acquired-frame-count", "%s stream %d: a finite acquisition of %llu frames took %ld frames from the camera",
+                      ctx, dev, (unsigned long long)s->N, nc);
         if (!prefix_ok && ns != nc)
             violation(mk_props(pb, sizeof pb, "C04", 0), ns < nc ? "frames-lost" : "frames-extra", "%s stream %d: camera delivered %ld frames, storage received %ld", ctx, dev, nc, ns);
         if (prefix_ok && ns > nc)
@@ -648,6 +654,16 @@ static void run_acquisition(const struct acq_cfg* a, vrng* g, int acq_index, str
         nap_us(150);
     }
     if (hit) ++C.instants_hit[a->end]; else ++C.instants_missed[a->end];
+    if (hit && a->end == END_ABORT_WAIT_TRIGGER) {
+        // the source thread is provably alive (its camera call is blocked waiting for a trigger): the runtime must say Running
+        long c0 = atomic_load(&M->cam[0].calls) + atomic_load(&M->cam[1].calls);
+        int w0 = atomic_load(&M->cam[0].waiting_trigger) || atomic_load(&M->cam[1].waiting_trigger);
+        enum DeviceState st = acquire_get_state(g_rt);
+        int w1 = atomic_load(&M->cam[0].waiting_trigger) || atomic_load(&M->cam[1].waiting_trigger);
+        long c1 = atomic_load(&M->cam[0].calls) + atomic_load(&M->cam[1].calls);
+        if (w0 && w1 && c0 == c1 && st != DeviceState_Running)
+            violation("C08", "not-running-with-live-workers", "%s: acquire_get_state says %d while a source thread is blocked in the camera waiting for a trigger", ctx, (int)st);
+    }
     if (a->end == END_WAIT_DONE_THEN_STOP || a->end == END_ABORT_AFTER_DONE) {
         // the runtime reports Running only while workers are alive (C08)
         if (atomic_load(&g_live_workers) == 0) {
